@@ -336,6 +336,33 @@ func genC05(seed int64, tier string) []caseOut {
 			NonTri: fmt.Sprintf("%x", h[:8]),
 		})
 	}
+	// every run of insignificant white space (space, tab, line feed, carriage return) in front of the
+	// document, behind it and between its tokens: the output is the same bytes
+	for _, run := range []string{" ", "\t", "\n", "\r", "\r\n", " \r ", "\n\r\t ", "\r\r"} {
+		var items []string
+		idem := true
+		for _, in := range []string{run + `{"a":[1,"x"],"b":{}}`, `{"a":[1,"x"],"b":{}}` + run, `{` + run + `"a"` + run + `:` + run + `[` + run + `1` + run + `,` + run + `"x"` + run + `]` + run + `,"b":{` + run + `}}`,
+			run + `[` + run + `]` + run} {
+			o, ok := implCanon(in)
+			if ok {
+				items = append(items, fmt.Sprintf("(%s, Some %s)", cStr(in), cStr(o)))
+			} else {
+				items = append(items, fmt.Sprintf("(%s, None)", cStr(in)))
+			}
+		}
+		h := sha256.Sum256([]byte("ws" + run))
+		out = append(out, caseOut{
+			Coq:    fmt.Sprintf("(mk_jcase %s %s)", cList(items[:3]), cBool(idem)),
+			Rec:    map[string]interface{}{"whitespace_run": run},
+			Label:  "value,whitespace-positions",
+			NonTri: fmt.Sprintf("%x", h[:8]),
+		}, caseOut{
+			Coq:    fmt.Sprintf("(mk_jcase %s %s)", cList(items[3:]), cBool(idem)),
+			Rec:    map[string]interface{}{"whitespace_run": run},
+			Label:  "value,whitespace-positions-empty-array",
+			NonTri: fmt.Sprintf("%x", h[8:16]),
+		})
+	}
 	// flat documents with more empty containers than the nesting limit allows levels: the limit is on
 	// depth, not on how many containers a document holds
 	for _, in := range []string{
